@@ -62,6 +62,10 @@ def main(tier, seed):
                 X = np.array([[rng.uniform(0.05, 5) for _ in range(dim)] for _ in range(N)])
             if dom == "prob":
                 X = X / X.sum(axis=1, keepdims=True)
+            elif rng.random() < 0.3:
+                # single-precision features (image / deep features): the file and the on-the-fly path must see the same rows
+                X = X.astype(np.float32)
+                stats["float32"] = stats.get("float32", 0) + 1
             Y = np.array([j % 2 for j in range(N)])
             fmt = "txt" if (rnd + len(metric)) % 2 == 0 else "csv"
             ftxt = os.path.join(tmp, "dist.txt")
@@ -117,6 +121,13 @@ def main(tier, seed):
                 except (ZeroDivisionError, IndexError):
                     stats["skipped"] += 1
                     continue
+                except Exception as ex:
+                    # single-precision rows: metrics that hand back a numpy float32 scalar are refused by the Node.cost
+                    # setter ("`cost` should be a float or integer") - the library rejects the input, nothing to compare
+                    if X.dtype == np.float32 and type(ex).__name__ == "TypeError":
+                        stats["float32_rejected"] = stats.get("float32_rejected", 0) + 1
+                        continue
+                    raise
                 if any(n_.cost != n_.cost or n_.density != n_.density for n_ in a.subgraph.nodes):
                     stats["skipped"] += 1
                     continue
